@@ -4,6 +4,8 @@ import Mathlib.Tactic.Linarith
 import Mathlib.Tactic.Positivity
 import Mathlib.Tactic.FieldSimp
 import Mathlib.Algebra.Order.Field.Basic
+import Mathlib.Algebra.Order.Ring.Cast
+import Mathlib.Algebra.Order.Ring.Abs
 import M3d.Model.Numeric
 /-!
 Helper lemmas for C17: list polynomials (`numerical/polynomial.go`) over a field.
@@ -120,3 +122,88 @@ theorem divAux_spec (r y : K) (p : List K) (hp : p ≠ []) :
       · rw [h2]; simp only [evalSpec_cons]
 
 end M3d.Num.Poly
+
+/-! ### angles and closed-form roots -/
+namespace M3d.Num
+
+variable {K : Type} [Field K] [LinearOrder K] [IsStrictOrderedRing K]
+
+/-- The behaviour of a truncation toward zero (the integer quotient inside `math.Mod`,
+Go's `int(x)` conversion). -/
+def IsTrunc (trunc : K → Int) : Prop :=
+  ∀ x : K, (0 ≤ x → ((trunc x : Int) : K) ≤ x ∧ x < ((trunc x : Int) : K) + 1) ∧
+           (x ≤ 0 → x ≤ ((trunc x : Int) : K) ∧ ((trunc x : Int) : K) - 1 < x)
+
+theorem fmod_spec (trunc : K → Int) (ht : IsTrunc trunc) (τ θ : K) (hτ : 0 < τ) :
+    ∃ n : Int, Angle.fmod trunc θ τ = θ - (n : K) * τ ∧
+      (0 ≤ θ → 0 ≤ Angle.fmod trunc θ τ ∧ Angle.fmod trunc θ τ < τ) ∧
+      (θ ≤ 0 → -τ < Angle.fmod trunc θ τ ∧ Angle.fmod trunc θ τ ≤ 0) := by
+  refine ⟨trunc (θ / τ), rfl, ?_, ?_⟩
+  · intro h
+    have hq : 0 ≤ θ / τ := div_nonneg h hτ.le
+    obtain ⟨h1, h2⟩ := (ht (θ / τ)).1 hq
+    have e : θ = θ / τ * τ := by field_simp
+    simp only [Angle.fmod]
+    constructor
+    · have := mul_le_mul_of_nonneg_right h1 hτ.le
+      linarith
+    · have := mul_lt_mul_of_pos_right h2 hτ
+      linarith
+  · intro h
+    have hq : θ / τ ≤ 0 := div_nonpos_of_nonpos_of_nonneg h hτ.le
+    obtain ⟨h1, h2⟩ := (ht (θ / τ)).2 hq
+    have e : θ = θ / τ * τ := by field_simp
+    simp only [Angle.fmod]
+    constructor
+    · have := mul_lt_mul_of_pos_right h2 hτ
+      linarith
+    · have := mul_le_mul_of_nonneg_right h1 hτ.le
+      linarith
+
+theorem abs'_eq (x : K) : Angle.abs' x = |x| := by
+  simp only [Angle.abs']; push_cast
+  split
+  · rename_i h; rw [abs_of_neg h]
+  · rename_i h; rw [abs_of_nonneg (not_lt.mp h)]
+
+omit [Field K] [IsStrictOrderedRing K] in
+theorem min'_eq (x y : K) : Angle.min' x y = min x y := by
+  simp only [Angle.min']
+  split
+  · rename_i h; rw [min_eq_right h.le]
+  · rename_i h; rw [min_eq_left (not_lt.mp h)]
+
+theorem circ_min (τ x : K) (hτ : 0 < τ) (h1 : -τ < x) (h2 : x < τ) (j : Int) :
+    min |x| (τ - |x|) ≤ |x + (j : K) * τ| := by
+  rcases lt_trichotomy j 0 with hj | hj | hj
+  · have : (j : K) ≤ -1 := by exact_mod_cast (Int.le_sub_one_of_lt hj)
+    have hh : x + (j : K) * τ ≤ x - τ := by nlinarith
+    have : |x + (j : K) * τ| = -(x + (j : K) * τ) := abs_of_neg (by linarith)
+    rw [this]
+    have := le_abs_self x
+    exact (min_le_right _ _).trans (by linarith)
+  · subst hj; simp
+  · have : (1 : K) ≤ (j : K) := by exact_mod_cast hj
+    have hh : x + τ ≤ x + (j : K) * τ := by nlinarith
+    have : |x + (j : K) * τ| = x + (j : K) * τ := abs_of_pos (by linarith)
+    rw [this]
+    have := neg_abs_le x
+    exact (min_le_right _ _).trans (by linarith)
+
+omit [LinearOrder K] [IsStrictOrderedRing K] in
+theorem strip_of_last_ne [DecidableEq K] (p : List K) (a : K) (ha : a ≠ 0) :
+    Poly.stripLeadingZeros (p ++ [a]) = p ++ [a] := by
+  induction p with
+  | nil => simp [Poly.stripLeadingZeros, ha]
+  | cons c cs ih =>
+    simp only [List.cons_append, Poly.stripLeadingZeros, ih]
+    cases cs <;> simp
+
+omit [LinearOrder K] [IsStrictOrderedRing K] in
+theorem strip_append_zero [DecidableEq K] (p : List K) :
+    Poly.stripLeadingZeros (p ++ [0]) = Poly.stripLeadingZeros p := by
+  induction p with
+  | nil => simp [Poly.stripLeadingZeros]
+  | cons c cs ih => simp only [List.cons_append, Poly.stripLeadingZeros, ih]
+
+end M3d.Num
